@@ -26,6 +26,8 @@ func VerifSetup() {
 	for _, v := range []interface{}{&vtScalars{}, vtScalars{}, &vtNested{}, &vtRec{}, &vtIface{}, vtInner{}, &vtInner{}, &vsT{}, &vtTags{}, vtTags{}, &vtTop{}, vtTop{}, &vtIface2{}, &vtRecMap{}} {
 		Marshal(v)
 		MarshalIndent(v, "", " ")
+		MarshalWithOption(v, Colorize(&ColorScheme{}))
+		MarshalIndentWithOption(v, "", " ", Colorize(&ColorScheme{}))
 	}
 	// decoder side: compile the decoders of the harness target types once
 	Unmarshal([]byte(`{}`), &vcT{})
@@ -42,8 +44,8 @@ func VerifSetup() {
 // subject; one-digit values keep the printed bytes a function of one input byte).
 func smallInt(t *verifrt.T, name string) int64 {
 	b := t.Byte(name)
-	if t.Param("PROP") == 3 {
-		// the JSON recogniser classifies digits (leading zero, sign): keep one class
+	if p := t.Param("PROP"); p == 3 || p == 13 {
+		// the JSON recogniser / re-indenter classify digits (leading zero, sign): keep one class
 		// per integer there; all of [-9,9] is covered by the byte-equality obligations of PROP 1
 		t.Assume(verifrt.And(b >= 10, b <= 18))
 	} else {
@@ -54,7 +56,7 @@ func smallInt(t *verifrt.T, name string) int64 {
 
 func smallUint(t *verifrt.T, name string) uint64 {
 	b := t.Byte(name)
-	if t.Param("PROP") == 3 {
+	if p := t.Param("PROP"); p == 3 || p == 13 {
 		t.Assume(verifrt.And(b >= 1, b <= 9))
 	} else {
 		t.Assume(b <= 9)
@@ -130,6 +132,14 @@ func checkMarshal(t *verifrt.T, v interface{}, ref []byte) {
 		ne, err4 := MarshalNoEscape(v)
 		t.Assert("noescape-succeeds", err4 == nil)
 		t.Assert("noescape-equals-marshal", verifref.BytesEq(ne, out))
+		// the colour interpreters with an empty scheme describe the same document
+		col, err5 := MarshalWithOption(v, Colorize(&ColorScheme{}))
+		t.Assert("colour-succeeds", err5 == nil)
+		t.Assert("colour-empty-scheme-equals-marshal", verifref.BytesEq(col, out))
+		coli, err6 := MarshalIndentWithOption(v, ">", "\t", Colorize(&ColorScheme{}))
+		ind2, _ := MarshalIndent(v, ">", "\t")
+		t.Assert("colour-indent-succeeds", err6 == nil)
+		t.Assert("colour-indent-empty-scheme-equals-indent", verifref.BytesEq(coli, ind2))
 	}
 }
 
